@@ -63,6 +63,9 @@ type Case struct {
 	// Focus: a family of layouts (same handler / same state: downloads, sockets, tokens, ...) that most
 	// callbacks of this case are drawn from, so that one handler sees a run of related messages
 	Focus string `json:"focus,omitempty"`
+	// DlSizes: the total size each of the three open downloads announced when it was opened
+	// (agent-supplied 64-bit field; 0 = the historical default of 100 bytes)
+	DlSizes []uint64 `json:"dl_sizes,omitempty"`
 }
 
 // family of a layout: the state it works on
@@ -512,6 +515,11 @@ func gen(t *rapid.T) Case {
 		c.Pivot = rapid.Bool().Draw(t, "pivot")
 		c.Download = rapid.Bool().Draw(t, "download")
 	}
+	if c.Download || c.NAgents > 0 {
+		for i := 0; i < 3; i++ {
+			c.DlSizes = append(c.DlSizes, rapid.SampledFrom([]uint64{100, 100, 0, 1, 5, 0x7fffffffffffffff, 0x8000000000000000, 0xffffffffffffffff, 0x100000000}).Draw(t, "dlsize"))
+		}
+	}
 	n := rapid.IntRange(1, 4).Draw(t, "nreqs")
 	if c.NAgents > 0 && rapid.Bool().Draw(t, "focused") {
 		c.Focus = rapid.SampledFrom(famNames).Draw(t, "focus")
@@ -598,7 +606,11 @@ func check(c Case) *core.Violation {
 		// several transfers are open at once (file ids 7, 8, 9), as with a real agent downloading a folder
 		var subs []demonref.Sub
 		for fid := uint32(7); fid <= 9; fid++ {
-			body := (&demonref.Enc{}).Int32(2).Int32(0).Int32(fid).Int64(100).WString(fmt.Sprintf("C:\\loot\\report%d.txt", fid)).B
+			size := uint64(100)
+			if i := int(fid - 7); i < len(c.DlSizes) {
+				size = c.DlSizes[i]
+			}
+			body := (&demonref.Enc{}).Int32(2).Int32(0).Int32(fid).Int64(size).WString(fmt.Sprintf("C:\\loot\\report%d.txt", fid)).B
 			subs = append(subs, demonref.Sub{Cmd: agent.COMMAND_FS, ReqID: 0x0d0d, Body: body})
 		}
 		w.Checkin(sessions[0], subs)
@@ -749,7 +761,7 @@ var _ = bytes.Equal
 func TestC01(t *testing.T) {
 	core.Run(t, core.Spec[Case]{
 		Property: "C01", Sub: "a",
-		Rule: "state (0-3 registered agents incl. id >= 2^31 and a zero-key agent, SMB child, open download, Service block on/off, five outstanding request ids on every agent) built through the real endpoints, then 1-4 requests (2-6 in the half of the cases that focus on one family of layouts - downloads, sockets, tokens, jobs, ... - so that one handler sees a run of related messages) via the HTTP listener engine or the External-C2 handler: A random bytes (all lengths 0-24, up to 300); B batches of 1-3 grammar-valid callbacks drawn from 140 command/sub-command layouts of TaskDispatch, each corrupted by integer fields also drawn from the keys of the lookup tables TaskDispatch indexes (win32.Protections, InjectErrors, Win32ErrorCodes as found in the tree under test); truncation / length-prefix rewrite / appended bytes / bit flip, plus SMB_CONNECT with a (cut / mismatching) child registration, relayed SMB_COMMAND packages, CHECKIN metadata, self-nested pivot packages to depth 400, header corruptions (magic, unknown id, id 0, other key, header command, cut, size); C registrations (valid, truncated, id mismatch, existing id, zero key, trailing bytes). Oracle: no panic, returns within 30 s, status 200/404, all agent mutexes free, traffic classified invalid by the harness gets 404 and leaves sessions/queues/DB/loot identical. Non-trivial: a class B/C request that passes header, magic and session lookup; distinct = (class:first layout, #agents, pivot, service, download, length bucket)",
+		Rule: "state (0-3 registered agents incl. id >= 2^31 and a zero-key agent, SMB child, three open downloads whose announced sizes include 0, 2^63 and 2^64-1, Service block on/off, five outstanding request ids on every agent) built through the real endpoints, then 1-4 requests (2-6 in the half of the cases that focus on one family of layouts - downloads, sockets, tokens, jobs, ... - so that one handler sees a run of related messages) via the HTTP listener engine or the External-C2 handler: A random bytes (all lengths 0-24, up to 300); B batches of 1-3 grammar-valid callbacks drawn from 140 command/sub-command layouts of TaskDispatch, each corrupted by integer fields also drawn from the keys of the lookup tables TaskDispatch indexes (win32.Protections, InjectErrors, Win32ErrorCodes as found in the tree under test); truncation / length-prefix rewrite / appended bytes / bit flip, plus SMB_CONNECT with a (cut / mismatching) child registration, relayed SMB_COMMAND packages, CHECKIN metadata, self-nested pivot packages to depth 400, header corruptions (magic, unknown id, id 0, other key, header command, cut, size); C registrations (valid, truncated, id mismatch, existing id, zero key, trailing bytes). Oracle: no panic, returns within 30 s, status 200/404, all agent mutexes free, traffic classified invalid by the harness gets 404 and leaves sessions/queues/DB/loot identical. Non-trivial: a class B/C request that passes header, magic and session lookup; distinct = (class:first layout, #agents, pivot, service, download, length bucket)",
 		Gen:   gen, Check: check, Classify: classify,
 		Assumptions: []string{
 			"no third-party agent type is registered in generated states, so every non-Demon magic value is invalid traffic",
